@@ -838,7 +838,7 @@ def gen_fit(draw, tier="quick"):
         spec["shift"] = float(draw(st.sampled_from([0.0, 0.5, 2.0, -1.0, 10.0])))
     via = draw(st.sampled_from(["fit", "fit", "ctor", "krige", "tools"]))
     if cls == "BoxCoxShift" and draw(st.booleans()):
-        via = "fit2"  # both parameters fitted (documented as hard): descent property only
+        via = draw(st.sampled_from(["fit2", "fit_shift"]))  # both parameters / only the shift (documented as hard): descent property only
     return {
         "norm": spec,
         "n": draw(st.integers(15, 60)),
@@ -941,6 +941,33 @@ def check_fit(case, rec):
         return
     shift = spec["shift"]
     trend = float(case.get("trend", 0.0))
+    if via == "fit_shift":
+        # only the shift is fitted (skip=["lmbda"]): the skipped parameter keeps its value, the result reports the stored
+        # parameter, and a valid result is not worse than the start
+        lam_fix = float(spec["lmbda"])
+        norm = gs.normalizer.BoxCoxShift(lmbda=lam_fix, shift=shift)
+        xa = np.array(x)
+        ll_start = np_loglik(cls, lam_fix, shift, xa)
+        res, _ = call(norm.fit, list(x), skip=["lmbda"], _tags=tags)
+        require(float(norm.lmbda) == lam_fix, f"BoxCoxShift.fit(skip=['lmbda']) changed lmbda from {lam_fix!r} to {float(norm.lmbda)!r}", dict(tags, kind="fit_skip"))
+        same_sh = isinstance(res, dict) and "shift" in res and (res["shift"] == norm.shift or (res["shift"] != res["shift"] and norm.shift != norm.shift))
+        require(
+            same_sh and res.get("lmbda", lam_fix) == norm.lmbda,
+            f"fit result {res} does not report the stored parameters (lmbda={norm.lmbda!r}, shift={norm.shift!r})",
+            dict(tags, kind="fit_result"),
+        )
+        sh = float(norm.shift)
+        if not (math.isfinite(sh) and bool(np.all(xa + sh > 0))):
+            rec.label("fit_shift:invalid_result")  # documented: "Fitting the shift parameter is rather hard" (same weakness as fit2 / O1)
+        if math.isfinite(sh) and bool(np.all(xa + sh > 0)) and math.isfinite(ll_start):
+            ll_end = np_loglik(cls, lam_fix, sh, xa)
+            if math.isfinite(ll_end):
+                rec.label("fit_shift:valid")
+                if not ll_end >= ll_start - 1e-9 * (1 + abs(ll_start)) and not _known("O1_boxcoxshift_two_parameter_fit", case):
+                    raise Violation(f"BoxCoxShift.fit(skip=['lmbda']): log-likelihood {ll_end!r} at shift={sh!r} is below the start {ll_start!r}",
+                                    tags=dict(tags, kind="fit2_worse_than_start"))
+        rec.nontrivial(sh != shift)
+        return
     if via == "fit2":
         # two-parameter fit (scipy BFGS from the current parameters).  The class doc
         # warns that the shift is hard to fit; the only sound claim is that the result
